@@ -81,6 +81,18 @@ def arm_opcodes(w, f):
                         ops.append(opn)
                         if det.get('second_op'):
                             ops.append(det['second_op'])
+            if not ops:
+                # the arm does not emit, it *chooses*: `TokenKind::X => Some(OpCode::Y)` in a token-to-opcode helper whose answer is emitted
+                # afterwards (emit_byte(op as u8)). The opcode of the arm is the one it names.
+                named = []
+                for eb in sorted(f.normal_blocks()):
+                    if eb == tb or (tb in dom.get(eb, ()) and not any(tb2 != tb and tb2 in dom.get(eb, ()) for _, tb2 in t['cases'])):
+                        for s_ in f.blocks[eb]['s']:
+                            rr = s_.get('r', {})
+                            if rr.get('rv') == 'agg' and str(rr.get('adt', '')).endswith('chunk::OpCode') and rr.get('v'):
+                                named.append(rr['v'])
+                if len(named) == 1 and any(k_ == 'byte' and not o_ for (_, k_, o_, _) in evs):
+                    ops = named
             out[byd.get(v, v)] = tuple(ops)
     return out
 
